@@ -1,0 +1,37 @@
+//! Verification hooks. Compiled only with `--cfg walrus_verif`; never part of a normal build.
+use std::sync::atomic::{AtomicU64, Ordering};
+
+static CLOCK_OVERRIDE_MS: AtomicU64 = AtomicU64::new(0);
+
+/// Wall-clock override (milliseconds since the epoch) used for WAL file naming; 0 = off.
+pub fn set_clock_override(ms: u64) {
+    CLOCK_OVERRIDE_MS.store(ms, Ordering::SeqCst);
+}
+
+pub(crate) fn clock_override() -> Option<u128> {
+    match CLOCK_OVERRIDE_MS.load(Ordering::SeqCst) {
+        0 => None,
+        v => Some(v as u128),
+    }
+}
+
+pub fn sanitize_namespace(key: &str) -> String {
+    crate::wal::config::sanitize_namespace(key)
+}
+
+pub fn checksum64(data: &[u8]) -> u64 {
+    crate::wal::config::checksum64(data)
+}
+
+/// (DEFAULT_BLOCK_SIZE, BLOCKS_PER_FILE, MAX_ALLOC, PREFIX_META_SIZE, MAX_BATCH_ENTRIES, MAX_BATCH_BYTES)
+pub fn geometry() -> (u64, u64, u64, u64, u64, u64) {
+    use crate::wal::config::*;
+    (
+        DEFAULT_BLOCK_SIZE,
+        BLOCKS_PER_FILE,
+        MAX_ALLOC,
+        PREFIX_META_SIZE as u64,
+        MAX_BATCH_ENTRIES as u64,
+        MAX_BATCH_BYTES,
+    )
+}
